@@ -191,9 +191,22 @@ PairFailing(r) ==
 PUnambiguous(r) == \A pr \in PPairs(r) : ~PTie(r, pr[1], pr[2])
 PRefCounts(r) == [b \in 1..PNBin(r) |-> PMust(r, b - 1)]
 
+\* ---- histories on one HTM object ------------------------------------------------------------------------
+\* record  [kind |-> "history", lat, calls : Seq([p1, p2, edges, scale, obs])]
+\* The calls were made in this order on ONE HTM object, the caller re-using the same array objects (ra1, dec1,
+\* ra2, dec2, scale, htmid2) with their contents overwritten in place between calls.  The object has no
+\* abstract state: every call is judged by the brute-force clause on ITS OWN contents; a clause failing in a
+\* call after the first overwrite is reported as "after_overwrite_<clause>".
+HistCall(r, n) == [kind |-> "pairs", lat |-> r.lat, p1 |-> r.calls[n].p1, p2 |-> r.calls[n].p2,
+                   edges |-> r.calls[n].edges, scale |-> r.calls[n].scale, obs |-> r.calls[n].obs]
+HistoryFailing(r) ==
+    UNION {{IF n = 1 \/ f = "MACHINERY_malformed_case" THEN f ELSE "after_overwrite_" \o f : f \in PairFailing(HistCall(r, n))}
+           : n \in DOMAIN r.calls}
+
 \* ---- dispatch ---------------------------------------------------------------------------------------
 Failing(r) == IF r.kind = "lookup" THEN LookupFailing(r)
               ELSE IF r.kind = "cover" THEN CoverFailing(r)
               ELSE IF r.kind = "pairs" THEN PairFailing(r)
+              ELSE IF r.kind = "history" THEN HistoryFailing(r)
               ELSE {"MACHINERY_unknown_kind"}
 =============================================================================
